@@ -6,7 +6,9 @@ import GaeaVerif.Gen.Consts
 /-
   Driver for C39, whole sessions (and the helpers shared with Drv/C39.lean).
 
-    m (ses (cfg MAXROWS EXECMS KS) STMT…)
+    m (ses (cfg MAXROWS EXECMS KS [MULTI]) STMT…)
+        | (mq CUT ((RESULT) …))      one COM_QUERY text of several statements split by the proxy (only with
+                                      MULTI = t), one result per statement
     STMT: (begin) | (commit) | (rollback)
         | (un BIN CUT (RESULT…))      unsharded statement; CUT = -1, or the number of packets of the
                                       answer the client takes before its connection breaks
@@ -116,6 +118,20 @@ def stmt? (e : Sexp) : Option Stmt :=
     match budget? cut, answer? results 0 with
     | some b, some a => some (.un a b)
     | _, _ => none
+  | .list [.atom "mq", cut, .list answers] =>
+    -- one result per statement; ids run through the statements
+    let results := answers.filterMap fun a => match a with
+      | .list [r] => some r
+      | _ => none
+    if results.length != answers.length then none else
+    match budget? cut, answer? results 0 with
+    | some b, some a =>
+      -- the backend answers every statement on its own: no result announces another
+      some (.mq (a.map fun r => match r with
+        | .okp _ => Res.okp false
+        | .set _ body => Res.set false body
+        | r => r) b)
+    | _, _ => none
   | .list [.atom "sq", cut, .list tbls] =>
     match budget? cut, tables? tbls 0 0 with
     | some b, some (t0, t1) => some (.sq t0 t1 b)
@@ -158,7 +174,7 @@ def fmtSl (s : Sl) (ks : Bool) : String :=
 
 def sesModel (cfg : Sexp) (stmts : List Sexp) : String :=
   match cfg with
-  | .list [.atom "cfg", m, e, ks] =>
+  | .list (.atom "cfg" :: m :: e :: ks :: _) =>
     match m.asInt?, e.asNat?, ks.asBool?, stmts.mapM stmt? with
     | some m, some e, some ks, some sts =>
       let (ss, answers) := run T m (decide (e > 0)) (Sess.init ks) sts []
@@ -268,6 +284,21 @@ def judgeStmt (m : Int) (st out : Sexp) : String :=
             (if sps.any fun sp => sp.isSet && (sp.n : Int) = m then "viol result-of-exactly-limit-rows-rejected"
              else "viol complete-answer-not-delivered")
           else "ok"
+      | .list [.atom "mq", cut, .list answers] =>
+        -- the statements of the packet: every one answered on its own, the flag on all but the last
+        let results := answers.filterMap fun a => match a with
+          | .list [r] => some r
+          | _ => none
+        let sps := rspecs results 0
+        let v := judgeViews m views sps
+        if v != "ok" then v
+        else if fin == .atom "done" then
+          (if views.length < sps.length || !lastEnded views then "viol answer-ended-before-its-last-result" else "ok")
+        else
+          if cut.asInt? == some (-1) && !sps.isEmpty && sps.all (fun sp => sp.complete && withinLimit m sp.n) then
+            (if sps.any fun sp => sp.isSet && (sp.n : Int) = m then "viol result-of-exactly-limit-rows-rejected"
+             else "viol complete-answer-not-delivered")
+          else "ok"
       | .list [.atom "sq", cut, .list tbls] =>
         let scripts := tbls.filter fun t => t != .atom "-"
         let sps := rspecs scripts 0
@@ -308,7 +339,7 @@ def firstBad (vs : List String) : String := (vs.find? (· != "ok")).getD "ok"
 
 def sesOracle (cfg : Sexp) (stmts : List Sexp) (out : Sexp) : String :=
   match cfg, out with
-  | .list [.atom "cfg", m, _, _], .list parts =>
+  | .list (.atom "cfg" :: m :: _), .list parts =>
     match m.asInt? with
     | none => "bad"
     | some m =>
